@@ -13,6 +13,11 @@
 #include <fcppt/reference_hash.hpp>
 #include <fcppt/reference_std_hash.hpp>
 #include <fcppt/reference_to_const.hpp>
+#include <fcppt/reference_to_base.hpp>
+#include <fcppt/make_cref.hpp>
+#include <fcppt/static_pointer_cast.hpp>
+#include <fcppt/dynamic_pointer_cast.hpp>
+#include <fcppt/const_pointer_cast.hpp>
 #include <fcppt/unit.hpp>
 #include <fcppt/unit_comparison.hpp>
 #include <fcppt/iterator/make_range.hpp>
@@ -493,6 +498,9 @@ struct base_tr
   {
     return "";
   }
+  // types with padding or inactive bytes offer make_in: the value constructed IN PLACE (by its value constructor, not by a
+  // copy) in a buffer the caller has filled with a byte pattern, so that those bytes differ between equal values
+  static std::nullptr_t make_in(void *, V const &) { return nullptr; }
 };
 
 struct opt_tr : base_tr
@@ -500,6 +508,10 @@ struct opt_tr : base_tr
   using type = fcppt::optional::object<int>;
   static constexpr bool has_lt = true;
   static constexpr unsigned routes = 3;
+  static type *make_in(void *buf, V const &l)
+  {
+    return l.empty() ? new (buf) type() : new (buf) type(static_cast<int>(l[0]));
+  }
   static std::optional<type> make(V const &l, unsigned route = 0)
   {
     if (l.size() > 1)
@@ -536,6 +548,11 @@ struct opt_tr : base_tr
 
 struct eith_tr : base_tr
 {
+  static fcppt::either::object<long, int> *make_in(void *buf, V const &l)
+  {
+    using type = fcppt::either::object<long, int>;
+    return l[0] == 0 ? new (buf) type(static_cast<long>(l[1])) : new (buf) type(static_cast<int>(l[1]));
+  }
   using type = fcppt::either::object<long, int>; // failure: long, success: int
   static constexpr unsigned routes = 3;
   static std::optional<type> make(V const &l, unsigned route = 0)
@@ -573,6 +590,14 @@ struct var_tr : base_tr
   using type = fcppt::variant::object<int, long, short>;
   static constexpr bool has_lt = true;
   static constexpr unsigned routes = 3;
+  static type *make_in(void *buf, V const &l)
+  {
+    if (l[0] == 0)
+      return new (buf) type(static_cast<int>(l[1]));
+    if (l[0] == 1)
+      return new (buf) type(static_cast<long>(l[1]));
+    return new (buf) type(static_cast<short>(l[1]));
+  }
   static type direct(long long i, long long x)
   {
     if (i == 0)
@@ -620,6 +645,10 @@ struct tup_tr : base_tr
 {
   using type = fcppt::tuple::object<int, long, short>;
   static constexpr unsigned routes = 2;
+  static type *make_in(void *buf, V const &l)
+  {
+    return new (buf) type(static_cast<int>(l[0]), static_cast<long>(l[1]), static_cast<short>(l[2]));
+  }
   static std::optional<type> make(V const &l, unsigned route = 0)
   {
     if (l.size() != 3)
@@ -678,6 +707,10 @@ struct rec_tr : base_tr
   using type = fcppt::record::object<el0, el1>;
   using perm = fcppt::record::object<el1, el0>;
   static constexpr unsigned routes = 2;
+  static type *make_in(void *buf, V const &l)
+  {
+    return new (buf) type(label0{} = static_cast<int>(l[0]), label1{} = static_cast<long>(l[1]));
+  }
   static std::optional<type> make(V const &l, unsigned route = 0)
   {
     if (l.size() != 2)
@@ -1428,10 +1461,13 @@ struct engine
       if (p != nullptr)
         p->~T();
     }
-    T &put(T &&x, unsigned char pattern)
+    T &put(T &&x, V const &l, unsigned char pattern)
     {
       std::memset(buf, pattern, sizeof buf);
-      p = new (buf) T(std::move(x));
+      if constexpr (std::is_same_v<decltype(Tr::make_in(nullptr, l)), std::nullptr_t>)
+        p = new (buf) T(std::move(x));
+      else
+        p = Tr::make_in(buf, l); // value constructor in place: padding and inactive bytes keep the pattern
       return *p;
     }
   };
@@ -1443,8 +1479,8 @@ struct engine
     if (!x || !y)
       return "bad-op";
     slot sx, sy;
-    T const &rx = (ra & 8U) != 0U ? sx.put(std::move(*x), 0xAB) : *x;
-    T const &ry = (rb & 8U) != 0U ? sy.put(std::move(*y), 0x5C) : *y;
+    T const &rx = (ra & 8U) != 0U ? sx.put(std::move(*x), a, 0xAB) : *x;
+    T const &ry = (rb & 8U) != 0U ? sy.put(std::move(*y), b, 0x5C) : *y;
     return obs(rx, ry);
   }
 
@@ -1455,7 +1491,7 @@ struct engine
     if (!x)
       return "bad-op";
     slot sx;
-    T const &r1 = (ra & 8U) != 0U ? sx.put(std::move(*x), 0xAB) : *x;
+    T const &r1 = (ra & 8U) != 0U ? sx.put(std::move(*x), a, 0xAB) : *x;
     T const &r2 = r1;
     return obs(r1, r2);
   }
@@ -1784,6 +1820,23 @@ std::string wrap_line(int x)
     fcppt::shared_ptr<wrap_base> const bas{der}; // converting constructor
     ok = ok && bas.get_pointer() == der.get_pointer() && der.use_count() == 2 && bas == der && !(bas != der) && !(bas < der) &&
          !(der < bas);
+    // the pointer casts keep the object and share the ownership
+    {
+      fcppt::shared_ptr<wrap_derived> const back{fcppt::static_pointer_cast<wrap_derived>(bas)};
+      auto const dyn{fcppt::dynamic_pointer_cast<wrap_derived>(bas)};
+      fcppt::shared_ptr<wrap_base> const plain{fcppt::make_shared_ptr<wrap_base>()};
+      auto const dyn_fail{fcppt::dynamic_pointer_cast<wrap_derived>(plain)};
+      fcppt::shared_ptr<int const> const ca{a};
+      fcppt::shared_ptr<int> const cc{fcppt::const_pointer_cast<int>(ca)};
+      ok = ok && back.get_pointer() == der.get_pointer() && dyn.has_value() && dyn.get_unsafe() == der && !dyn_fail.has_value() &&
+           cc.get_pointer() == a.get_pointer() && cc == a && der.use_count() == 4 && back->v == x;
+      wrap_derived obj{};
+      obj.v = x;
+      fcppt::reference<wrap_derived> const rd{obj};
+      fcppt::reference<wrap_base> const rb{fcppt::reference_to_base<wrap_base>(rd)};
+      fcppt::reference<wrap_base const> const rc{fcppt::make_cref(static_cast<wrap_base const &>(obj))};
+      ok = ok && &rb.get() == &obj && rb->v == x && &rc.get() == &rb.get() && fcppt::reference_to_const(rb) == rc;
+    }
     int const va = *a, vb = *b, vc = *c;
     a = c; // copy assignment: raw dies, a shows c's object
     ok = ok && w.expired() && !w.lock().has_value() && a.get_pointer() == up2 && c.use_count() == 2;
